@@ -249,12 +249,19 @@ func c04Check(key, msg []byte, chunks []int, sumPrefix []byte) (hGEp bool, err e
 	}
 	// 2. incremental MAC with the drawn chunking
 	var tag, tag2 []byte
-	h := poly1305.New(&k)
+	kbuf := k // the key array handed to New is overwritten right after and between the writes
+	h := poly1305.New(&kbuf)
+	fillPattern(kbuf[:], 1)
 	if e := catch(func() {
+		wn := 0
 		gen.SplitAt(msg, chunks, func(p []byte) {
-			if n, err := h.Write(p); n != len(p) || err != nil {
+			pc := clone(p) // Write must copy what it buffers: the chunk is overwritten once Write returns
+			if n, err := h.Write(pc); n != len(p) || err != nil {
 				panic(fmt.Sprintf("Write returned (%d, %v) for %d bytes", n, err, len(p)))
 			}
+			wn++
+			fillPattern(pc, wn)
+			fillPattern(kbuf[:], wn)
 		})
 		tag = h.Sum(clone(sumPrefix))
 		tag2 = h.Sum(nil)
@@ -275,7 +282,9 @@ func c04Check(key, msg []byte, chunks []int, sumPrefix []byte) (hGEp bool, err e
 	}
 	// 3. Verify accepts exactly that tag
 	verify := func(t []byte) bool {
-		hv := poly1305.New(&k)
+		kb2 := k
+		hv := poly1305.New(&kb2)
+		fillPattern(kb2[:], len(t))
 		hv.Write(msg)
 		return hv.Verify(t)
 	}
